@@ -23,7 +23,9 @@
 //     fallthrough), type switch over a symbolic interface value (see below),
 //     return (also naked), :=, =, op=, ++, --, var, local const
 //     (folded at its uses), assignments
-//     to fields of the receiver or of local struct values; statements after a
+//     to fields of the receiver or of local struct values (under "refs" a
+//     pointer-to-struct parameter whose fields are assigned is returned, after
+//     the receiver, with its final value); statements after a
 //     branching statement are duplicated into both branches;
 //   - `for range n { f(…); _ = g(…) }` over an integer n whose body consists
 //     only of calls with discarded results (trace mode): the body's trace
@@ -40,7 +42,9 @@
 //   - a call to another function of the same translation list is a call of its
 //     Lean definition; cmp.Or over errors is "first non-nil, all arguments
 //     evaluated"; validateProp(name, f) is `f()` (the name prefix is kept in
-//     the error text); validatePositive(name, v) is the intrinsic `v <= 0`
+//     the error text); under "refs" errors.Annotate(err, format, …) is
+//     `wrapErr format err` (nil iff err is nil; an opaque call otherwise);
+//     validatePositive(name, v) is the intrinsic `v <= 0`
 //     (signed integers, durations) resp. `v == 0` (unsigned) — its own body
 //     uses reflection and is tied by syntactic facts and the differential run;
 //   - a struct type of the repository (and timeutil.Duration) becomes a Lean
@@ -155,6 +159,12 @@
 //   - a type switch on an abstract value is an if-chain, in clause order, over
 //     extra Bool parameters `e<k>_is_<T>` ("the dynamic type is T"); fields of
 //     the narrowed value are opaque values as above;
+//   - a result (or assignment target) of abstract pointer or interface type is
+//     `AbsPtr` too: nil is `false`, a concrete value converted to the interface
+//     is `true` (which implementation it is, is not modelled);
+//   - a field of abstract pointer type of a translated struct
+//     (`srvReqInfo.Userinfo`) is not part of the Lean structure: reading it is
+//     an opaque `AbsPtr` parameter (its nil-ness);
 //   - []error literals, append on them and errors.Join are lists of optional
 //     texts and "first non-nil" (errors.Join is non-nil iff an element is);
 //   - opaque calls and reads from abstract objects are not allowed inside
@@ -179,6 +189,12 @@
 //   - with "trace", a deferred call is appended to the trace at every exit
 //     reached after the defer statement (arguments as evaluated at the defer);
 //   - with "trace", `go f(args)` is the effect ("go f", [scalar arguments]);
+//   - calls listed under "fn" are opaque *functions*: one parameter
+//     `f_<callee> : A1 → … → R` per callee, applied to the call's arguments of
+//     translatable type (abstract arguments such as ctx are dropped), so which
+//     value is handed to the callee is part of the translated meaning (a
+//     database look-up is a function of the identifier it is asked for); with
+//     "trace" the call is also recorded unless it is listed under "pure";
 //   - calls listed under "ignore" (mutex operations, logging, metrics) are
 //     dropped, and so is `defer func() { err = errors.Annotate(err, …) }()`;
 //     "lit": n translates the n-th function literal inside the named function
@@ -205,7 +221,34 @@
 //   - "range_body" translates, instead of the whole function, the body of its
 //     first `for k, v := range …` statement as a function of the loop
 //     variables (one iteration; `continue` ends it) — the way to state the
-//     per-element rule of a loop over a map, whose order is unspecified.
+//     per-element rule of a loop over a map, whose order is unspecified;
+//   - with the spec-file option "refs": true, values of abstract type are not
+//     dropped but modelled as *identity tokens*: an interface value or a
+//     pointer to an abstract struct / to a non-struct is `Option Int` (nil or a
+//     token), a value of an abstract struct type (time.Time, dns.Question) is
+//     `Int` and `T{}` is the token 0; so nil tests, "which value is passed
+//     on / returned / handed to which call" are part of the translated meaning
+//     (tokens appear in traces via toString); reading a field through such a
+//     value is still an opaque value parameter; `&x` and `*p` are opaque values;
+//     a `var` of a type that stays untranslatable (func values) is skipped;
+//     trace arguments follow the rule TrC17 was written against: scalars and
+//     tokens by value, opaque values and "pure" calls read in an argument stay
+//     parameters, anything that needs a traced call or may panic is "_", and
+//     a ':' in a generated parameter name is dropped instead of becoming '_';
+//     under "refs" a slice of translatable elements is a `List`, `len(s)` its
+//     length, `s[i]` is `none` (panic) unless 0 ≤ i < len(s), nil slice = [];
+//   - `len(x)` of anything else is an opaque value parameter;
+//   - the zero value of a slice (a named result) is the empty list;
+//     newDeviceDataError(err, typ), like fmt.Errorf, makes a non-nil error;
+//   - a slice expression xs[lo:hi] on a list (a slice of translatable
+//     elements; abstract buffers and symbolic mode are treated above) is
+//     take/drop; bounds outside 0 ≤ lo ≤ hi ≤ len(xs) make the result `none`
+//     (capacity is not modelled);
+//   - a struct literal with field names T{f: v, …} is a Lean structure instance
+//     (fields of untranslatable type are not part of the structure, fields not
+//     mentioned get their zero value); &T{…} is `some` of it;
+//   - `defer func() { err = errors.Annotate(err, …) }()` is dropped: it changes
+//     the text of a non-nil error only (nil stays nil).
 //
 // Anything else is a translation error: the generated definition is replaced
 // by a marker that makes the Tie theorem fail, i.e. a broken obligation.
@@ -289,6 +332,10 @@ type TrFunc struct {
 	// LoopOpaque allows opaque calls and reads from abstract objects inside
 	// range loops: one parameter then stands for the result in every iteration.
 	LoopOpaque bool `json:"loop_opaque,omitempty"`
+	// Fn lists printed callee expressions whose calls become applications of
+	// one function parameter `f_<name>` (per callee) to the arguments of
+	// translatable type: the result depends on those arguments only.
+	Fn []string `json:"fn,omitempty"`
 }
 
 type trSpecFile struct {
@@ -306,6 +353,8 @@ type trSpecFile struct {
 	// TraceNew: in traced functions `&T{…}` of abstract type is also the
 	// trace entry ("new T", ["K=" ++ value, …]).
 	TraceNew bool `json:"trace_new,omitempty"`
+	// Refs models values of abstract type as identity tokens (see header).
+	Refs bool `json:"refs,omitempty"`
 }
 
 // symbolicOpt is the value of the file-level option "symbolic": a boolean
@@ -440,6 +489,7 @@ type translator struct {
 	traceNew bool
 	// symb: the types declared symbolic one by one ("symbolic": {type: Lean type}).
 	symb map[string]string
+	refs bool // spec-file option "refs"
 }
 
 type funcOut struct {
@@ -484,7 +534,10 @@ func (t *translator) leanTypeC(ty types.Type) string {
 			return t.symb[u.Obj().Pkg().Path()+"."+u.Obj().Name()]
 		}
 		if st, ok := u.Underlying().(*types.Struct); ok {
-			return t.structType(u, st)
+			if s := t.structType(u, st); s != "" || !t.refs {
+				return s
+			}
+			return "Int" // refs: value of an abstract struct type = identity token
 		}
 		return t.leanTypeC(u.Underlying())
 	case *types.Alias:
@@ -502,12 +555,13 @@ func (t *translator) leanTypeC(ty types.Type) string {
 	case *types.Pointer:
 		if n, ok := u.Elem().(*types.Named); ok {
 			if st, ok := n.Underlying().(*types.Struct); ok {
-				s := t.structType(n, st)
-				if s == "" {
-					return ""
+				if s := t.structType(n, st); s != "" {
+					return "(Option " + s + ")"
 				}
-				return "(Option " + s + ")"
 			}
+		}
+		if t.refs {
+			return "(Option Int)" // refs: nil or an identity token
 		}
 		return ""
 	case *types.Slice:
@@ -519,10 +573,16 @@ func (t *translator) leanTypeC(ty types.Type) string {
 		if el := t.leanType(u.Elem()); el != "" {
 			return "(List " + el + ")"
 		}
+		if el := t.leanType(u.Elem()); t.refs && el != "" {
+			return "(List " + el + ")"
+		}
 		return ""
 	case *types.Interface:
 		if u.NumMethods() == 1 && u.Method(0).Name() == "Error" {
 			return "(Option String)"
+		}
+		if t.refs {
+			return "(Option Int)"
 		}
 		return ""
 	case *types.Tuple:
@@ -536,6 +596,26 @@ func (t *translator) leanTypeC(ty types.Type) string {
 		return "(" + strings.Join(parts, " × ") + ")"
 	}
 	return ""
+}
+
+// refAbstract reports whether, under "refs", ty is modelled as an identity token
+// (abstract struct value, pointer to one, pointer to a non-struct, interface).
+func (t *translator) refAbstract(ty types.Type) bool {
+	if !t.refs || isError(ty) {
+		return false
+	}
+	switch u := types.Unalias(ty).(type) {
+	case *types.Named:
+		if _, ok := u.Underlying().(*types.Struct); ok {
+			return !structPkgAllowed(u)
+		}
+		return t.refAbstract(u.Underlying())
+	case *types.Pointer:
+		return !isPtrStruct(u) || t.refAbstract(u.Elem())
+	case *types.Interface:
+		return t.leanType(u) == "(Option Int)"
+	}
+	return false
 }
 
 // valType is the Lean type of a *value* (local, parameter that is compared with
@@ -556,8 +636,12 @@ func (t *translator) valType(ty types.Type) string {
 
 func (t *translator) isAbstract(ty types.Type) bool { return t.leanType(ty) == "" }
 
+// sanitizeColon is what a ':' in a name becomes: "_" (slice bounds `a[i:j]`),
+// "" under the spec-file option "refs" (whose ties were written against that).
+var sanitizeColon = "_"
+
 func sanitize(s string) string {
-	r := strings.NewReplacer(".", "_", "/", "_", "-", "_", "*", "", "(", "", ")", "", "[", "_", "]", "_", " ", "", ":", "_")
+	r := strings.NewReplacer(".", "_", "/", "_", "-", "_", "*", "", "(", "", ")", "", "[", "_", "]", "_", " ", "", "{", "", "}", "", "&", "", ":", sanitizeColon, ",", "_")
 	return r.Replace(s)
 }
 
@@ -652,6 +736,7 @@ type fctx struct {
 	loopEnd     map[*ast.EmptyStmt]int
 	opaqueCalls map[*ast.CallExpr]string
 	nonNil      map[types.Object]bool
+	paramMut    []string // pointer parameters whose fields are assigned (returned after the receiver)
 }
 
 type ex struct {
@@ -814,6 +899,14 @@ func (c *fctx) exprAs(e ast.Expr, to types.Type) ex {
 			x := c.expr(e)
 			return c.bindN([]ex{x}, func(s []string) string { return "(" + s[0] + ").isSome" })
 		}
+		if _, toIface := to.Underlying().(*types.Interface); toIface && !types.IsInterface(c.typeOf(e)) {
+			// a concrete value stored in an interface is a non-nil interface
+			x := c.expr(e)
+			if strings.Contains(x.code, "«call:") {
+				fail("traced call inside a value converted to an abstract interface: %s", c.show(e))
+			}
+			return c.bindN([]ex{x}, func([]string) string { return "true" })
+		}
 	}
 	if id, ok := e.(*ast.Ident); ok && id.Name == "nil" && to != nil && strings.HasPrefix(c.t.leanType(to), "(List") {
 		return ex{code: "[]"} // a nil slice of translated element type
@@ -936,8 +1029,9 @@ func (c *fctx) expr(e ast.Expr) ex {
 	case *ast.SelectorExpr:
 		return c.selector(x)
 	case *ast.StarExpr:
-		if c.t.isAbstract(c.typeOf(x)) {
+		if c.t.isAbstract(c.typeOf(x)) || c.t.refs {
 			// what an abstract pointer points to: an abstract value again
+			// ("refs": `*p` is always an opaque value)
 			return c.opaqueValue(x)
 		}
 	case *ast.SliceExpr:
@@ -947,6 +1041,9 @@ func (c *fctx) expr(e ast.Expr) ex {
 			return c.expr(x.X)
 		}
 	case *ast.UnaryExpr:
+		if x.Op == token.AND && c.t.refs {
+			return c.opaqueValue(e) // "refs": address of something: a fresh identity token
+		}
 		if cl, ok := x.X.(*ast.CompositeLit); ok && x.Op == token.AND && c.t.isAbstract(c.typeOf(x)) {
 			// a freshly allocated abstract object: non-nil; calls among its
 			// elements are evaluated (for the trace)
@@ -1015,6 +1112,9 @@ func (c *fctx) expr(e ast.Expr) ex {
 		if n, ok := c.typeOf(x).(*types.Named); ok && len(x.Elts) == 0 && n.Obj().Pkg() != nil && c.t.symb[n.Obj().Pkg().Path()+"."+n.Obj().Name()] != "" {
 			return ex{code: c.zero(n)}
 		}
+		if len(x.Elts) == 0 && c.t.refAbstract(c.typeOf(x)) && c.t.leanType(c.typeOf(x)) == "Int" {
+			return ex{code: "(0 : Int)"} // zero value of an abstract struct: the token 0
+		}
 	}
 	if ix, ok := e.(*ast.IndexExpr); ok {
 		if _, isSl := c.typeOf(ix.X).Underlying().(*types.Slice); isSl && c.t.leanType(c.typeOf(ix.X)) != "" && isInt(c.typeOf(ix.Index)) {
@@ -1065,6 +1165,31 @@ func (c *fctx) expr(e ast.Expr) ex {
 			c.opaqueNodes[e] = name
 		}
 		return ex{code: pre + "«call:(\"slice\", [" + c.traceArg(se) + "])»" + name}
+	}
+	if sx, ok := e.(*ast.SliceExpr); ok && !sx.Slice3 {
+		if _, isSl := c.typeOf(sx.X).Underlying().(*types.Slice); isSl && strings.HasPrefix(c.t.leanType(c.typeOf(sx.X)), "(List") {
+			// xs[lo:hi] on a list (abstract buffers, symbolic tokens and, in trace
+			// mode, re-slicing as an opaque value are handled above); bounds outside 0 ≤ lo ≤ hi ≤ len => panic (capacity is not modelled)
+			c.partial = true
+			parts := []ex{c.expr(sx.X), {code: "(0 : Int)"}}
+			if sx.Low != nil {
+				parts[1] = c.expr(sx.Low)
+			}
+			if sx.High != nil {
+				parts = append(parts, c.expr(sx.High))
+			}
+			r := c.bindN(parts, func(s []string) string {
+				hi := "(" + s[0] + ".length : Int)"
+				if len(s) == 3 {
+					hi = s[2]
+				}
+				return fmt.Sprintf("(if 0 ≤ %s ∧ %s ≤ %s ∧ %s ≤ (%s.length : Int) then some ((%s.take (%s).toNat).drop (%s).toNat) else none)", s[1], s[1], hi, hi, s[0], s[0], hi, s[1])
+			})
+			if r.partial {
+				return ex{code: "(Option.join " + r.code + ")", partial: true}
+			}
+			return ex{code: r.code, partial: true}
+		}
 	}
 	if ta, ok := e.(*ast.TypeAssertExpr); ok && c.typeTests[ta] {
 		// "the dynamic type of X is T" (a clause of a type switch): an opaque Bool
@@ -1247,7 +1372,7 @@ func (c *fctx) selector(x *ast.SelectorExpr) ex {
 	if sel == nil || sel.Kind() != types.FieldVal {
 		fail("selector %s is not a field", c.show(x))
 	}
-	if bt := c.typeOf(x.X); c.t.abstract(bt) {
+	if bt := c.typeOf(x.X); c.t.abstract(bt) || c.t.refAbstract(bt) {
 		return c.opaqueValue(x)
 	}
 	if len(sel.Index()) != 1 {
@@ -1396,7 +1521,7 @@ func (c *fctx) calleeKey(call *ast.CallExpr) (key string, recvExpr ast.Expr) {
 			if p, ok := rt.(*types.Pointer); ok {
 				rt = p.Elem()
 			}
-			if n, ok := rt.(*types.Named); ok && fn.Pkg() != nil {
+			if n, ok := types.Unalias(rt).(*types.Named); ok && fn.Pkg() != nil {
 				return fn.Pkg().Path() + "." + n.Obj().Name() + "." + fn.Name(), f.X
 			}
 		}
@@ -1528,6 +1653,9 @@ func (c *fctx) call(x *ast.CallExpr) ex {
 			xs = append(xs, c.exprAs(a, types.Universe.Lookup("error").Type()))
 		}
 		return c.bindN(xs, func(s []string) string { return "(firstErr [" + strings.Join(s, ", ") + "])" })
+	case key == "github.com/AdguardTeam/golibs/errors.Annotate" && len(x.Args) >= 2 && c.t.refs:
+		// nil stays nil, anything else is wrapped (the format is kept as the prefix)
+		return c.bindN([]ex{c.expr(x.Args[1]), c.expr(x.Args[0])}, func(s []string) string { return "(wrapErr " + s[0] + " " + s[1] + ")" })
 	case strings.HasSuffix(key, "/internal/cmd.validateProp"):
 		name := c.expr(x.Args[0])
 		inner := c.thunk(x.Args[1])
@@ -1587,11 +1715,37 @@ func (c *fctx) call(x *ast.CallExpr) ex {
 		}
 		return r
 	}
+	// "fn": an applied function parameter, shared by the call sites of that callee
+	if c.matches(c.spec.Fn, x) {
+		name := "f_" + sanitize(lastName(c.show(x.Fun)))
+		var xs []ex
+		var sig []string
+		for _, a := range x.Args {
+			if lt := c.t.leanType(c.typeOf(a)); lt != "" {
+				xs, sig = append(xs, c.expr(a)), append(sig, lt)
+			}
+		}
+		decl := "(" + name + " : " + strings.Join(append(sig, c.t.valType(c.typeOf(x))), " → ") + ")"
+		dup := false
+		for _, o := range c.opaque {
+			if dup = dup || o == decl; o != decl && strings.HasPrefix(o, "("+name+" : ") {
+				fail("fn %s is applied at two different types", name)
+			}
+		}
+		if !dup {
+			c.opaque = append(c.opaque, decl)
+		}
+		r := c.bindN(xs, func(s []string) string { return "(" + strings.Join(append([]string{name}, s...), " ") + ")" })
+		if c.trace && !c.matches(c.spec.Pure, x) {
+			r.code = "«call:" + c.traceEntry(x) + "»" + r.code
+		}
+		return r
+	}
 	// errors made by any other call: opaque non-nil error value labelled by source text
 	if isError(c.typeOf(x)) && !(c.trace && c.t.traceErrors) && !c.matches(c.spec.Pure, x) {
 		if tup, ok := c.typeOf(x).(*types.Tuple); !ok || tup.Len() == 1 {
 			switch c.show(x.Fun) {
-			case "fmt.Errorf", "errors.New", "errors.Error", "newNotPositiveError", "newNegativeError", "newMustBeUniqueError":
+			case "fmt.Errorf", "errors.New", "errors.Error", "newNotPositiveError", "newNegativeError", "newMustBeUniqueError", "newDeviceDataError":
 				return ex{code: fmt.Sprintf("(some %q)", c.show(x))}
 			}
 		}
@@ -1658,6 +1812,9 @@ func (c *fctx) traceArg(a ast.Expr) (code string) {
 	}()
 	if id, ok := a.(*ast.Ident); ok && id.Name == "_" {
 		return code
+	}
+	if c.t.refs {
+		return c.traceArgRefs(a)
 	}
 	if se, ok := a.(*ast.SliceExpr); ok && c.t.isAbstract(c.typeOf(se.X)) && !se.Slice3 {
 		// a window of an abstract buffer: its source name and the values of its bounds
@@ -1765,6 +1922,41 @@ func (c *fctx) traceArg(a ast.Expr) (code string) {
 	return fmt.Sprintf(render, e.code)
 }
 
+// traceArgRefs is traceArg under the spec-file option "refs" (the rules TrC17
+// was written against): scalars and identity tokens are shown by value;
+// opaque values and untraced ("pure") calls read in the argument stay ordinary
+// parameters; an argument that needs a traced call or may panic is "_".
+func (c *fctx) traceArgRefs(a ast.Expr) string {
+	tv, ok := c.p.info.Types[a]
+	if !ok || tv.Type == nil {
+		return "\"_\""
+	}
+	lt := c.t.leanType(tv.Type)
+	if lt != "Int" && lt != "Bool" && lt != "String" && !c.t.refAbstract(tv.Type) {
+		return "\"_\""
+	}
+	savedN, savedO, savedP := c.nOpaque, len(c.opaque), c.partial
+	e := c.expr(a)
+	if e.partial || strings.Contains(e.code, "«call:") {
+		c.nOpaque, c.opaque, c.partial = savedN, c.opaque[:savedO], savedP
+		for k, v := range c.opaqueVals { // forget what was rolled back
+			if !c.declared(v) {
+				delete(c.opaqueVals, k)
+			}
+		}
+		for k, v := range c.opaqueCalls {
+			if !c.declared(v) {
+				delete(c.opaqueCalls, k)
+			}
+		}
+		return "\"_\""
+	}
+	if lt == "String" {
+		return e.code
+	}
+	return "(toString " + e.code + ")"
+}
+
 // symCall renders an opaque call that occurs as a trace argument as a token:
 // "x.M(a,…)" for a method of an abstract value x, "f(a,…)" for a function that
 // is not translated, "T(…)" for a conversion of such a call ("" if a is none
@@ -1851,6 +2043,16 @@ func (c *fctx) nestedTrace(call *ast.CallExpr, rest []ast.Stmt) string {
 		}
 		return fmt.Sprintf("let tr := tr ++ [(%q, [%s])]\n", lastName(c.show(call.Fun)), strings.Join(args, ", ")) + c.stmts(rest)
 	})
+}
+
+// declared reports whether the opaque parameter name is (still) a parameter.
+func (c *fctx) declared(name string) bool {
+	for _, p := range c.opaque {
+		if strings.HasPrefix(p, "("+name+" : ") {
+			return true
+		}
+	}
+	return false
 }
 
 func lastName(s string) string {
@@ -1972,6 +2174,7 @@ func (c *fctx) ret(vals []string) string {
 		if c.recvMut {
 			parts = append(parts, leanIdent(c.recv))
 		}
+		parts = append(parts, c.paramMut...)
 		parts = append(parts, vals...)
 		for _, o := range c.spec.Out {
 			parts = append(parts, leanIdent(o))
@@ -2364,6 +2567,9 @@ func (c *fctx) stmts(list []ast.Stmt) string {
 				fail("var with values %s", c.show(x))
 			}
 			for _, n := range vs.Names {
+				if c.t.refs && c.t.leanType(c.p.info.Defs[n].Type()) == "" {
+					continue // variable of untranslatable type (func value …): only passed around
+				}
 				z := c.zero(c.p.info.Defs[n].Type())
 				out += fmt.Sprintf("let %s : %s := %s\n", leanIdent(n.Name), c.t.valType(c.p.info.Defs[n].Type()), z)
 			}
@@ -3178,6 +3384,27 @@ func (t *translator) translate(sp TrFunc) (fo *funcOut) {
 		}
 		resTypes = append(resTypes, t.leanType(rty))
 	}
+	// a pointer-to-struct parameter whose fields are assigned: its final value is returned too
+	for i := 0; i < sig.Params().Len() && t.refs; i++ {
+		v := sig.Params().At(i)
+		if lt := t.leanType(v.Type()); isPtrStruct(v.Type()) && strings.HasPrefix(lt, "(Option S_") {
+			found := false
+			ast.Inspect(fd.Body, func(n ast.Node) bool {
+				if as, ok := n.(*ast.AssignStmt); ok {
+					for _, l := range as.Lhs {
+						if se, ok := l.(*ast.SelectorExpr); ok && identOf(se.X) != nil && c.p.info.Uses[identOf(se.X)] == types.Object(v) {
+							found = true
+						}
+					}
+				}
+				return true
+			})
+			if found {
+				c.paramMut = append(c.paramMut, leanIdent(v.Name()))
+				resTypes = append(resTypes, lt)
+			}
+		}
+	}
 	for i := 0; i < sig.Results().Len(); i++ {
 		v := sig.Results().At(i)
 		c.results = append(c.results, v)
@@ -3305,7 +3532,11 @@ func runTranslator(specDir, outDir, harness, modfile string) error {
 	sort.Strings(props)
 	for _, prop := range props {
 		sf := specs[prop]
-		t := &translator{l: l, structs: map[string]*structDef{}, funcs: map[string]*funcOut{}, byDecl: map[string]TrFunc{}, symbolic: sf.Symbolic.All, symb: sf.Symbolic.Types, absBytes: sf.AbstractBytes, traceErrors: sf.TraceErrors, traceNew: sf.TraceNew}
+		t := &translator{l: l, structs: map[string]*structDef{}, funcs: map[string]*funcOut{}, byDecl: map[string]TrFunc{}, symbolic: sf.Symbolic.All, symb: sf.Symbolic.Types, absBytes: sf.AbstractBytes, traceErrors: sf.TraceErrors, traceNew: sf.TraceNew, refs: sf.Refs}
+		sanitizeColon = "_"
+		if sf.Refs {
+			sanitizeColon = ""
+		}
 		for _, f := range sf.Funcs {
 			t.byDecl[repoModule+f.Pkg+"."+f.Func] = f
 		}
@@ -3347,6 +3578,8 @@ func runTranslator(specDir, outDir, harness, modfile string) error {
 	}
 	return nil
 }
+
+func identOf(e ast.Expr) *ast.Ident { id, _ := e.(*ast.Ident); return id }
 
 func quoteList(xs []string) string {
 	var q []string
